@@ -51,7 +51,13 @@ def main():
         m = json.load(open(os.path.join(d, 'meta.json')))
         notes = open(os.path.join(d, 'notes.md')).read().strip().splitlines()
         first = next((l.strip('# *-').strip() for l in notes if l.strip() and not l.startswith('#')), '')
-        rows.append((name, m['property'], m.get('detected'), m.get('also_detected_by', ''), first[:220], MISSED_AT_FIRST.get(name, '')))
+        hist = MISSED_AT_FIRST.get(name, '')
+        rv = m.get('reverified')
+        if rv and rv['result'] != 'caught':
+            hist = (hist + '; ' if hist else '') + 'on repository commit %s: %s' % (rv['repo_commit'], {
+                'NEUTRAL': 'no longer breaks the property (its own demo passes with the change: a later fix made it harmless), not caught any more',
+                'STALE': 'patch no longer applies', 'MISSED': 'MISSED'}[rv['result']])
+        rows.append((name, m['property'], m.get('detected'), m.get('also_detected_by', ''), first[:220], hist))
     out = ['# Seeded changes (written by independent sub-agents; each confirmed: suite passes with it, demo fails with it / passes without)',
            '', '| seed | property | caught by its check (quick tier) | change (first line of the author\'s notes) | history |', '|---|---|---|---|---|']
     for name, prop, det, also, first, hist in rows:
